@@ -508,7 +508,7 @@ Proof.
       destruct (add_item_obj p v s H0 T G) as [Q1 [Q2 [Q3 [Q4 Q5]]]]. cbv zeta in *.
       repeat split; auto; try congruence. rewrite Q2. rewrite (val_obj p T). cbn [add_here]. rewrite P. reflexivity.
   - (* array *)
-    rewrite (val_arr p T). cbn [add_here]. change (s_is_dash s) with (is_dash s).
+    rewrite KI. rewrite (val_arr p T). cbn [add_here]. change (s_is_dash s) with (is_dash s).
     destruct (is_dash s).
     + cbn [fst snd rc_ok]. destruct (add_item_arr p v H0 T G) as [Q1 [Q2 [Q3 [Q4 Q5]]]].
       repeat split; auto; try congruence.
@@ -1496,4 +1496,119 @@ Proof.
   intros. rewrite (nodes_eq_spec fo _ (of_val_good (JI64 x) kl k) _ (of_val_good (JI64 y) kl' k')).
   destruct (of_val_inv (JI64 x) kl k) as [_ ->]. destruct (of_val_inv (JI64 y) kl' k') as [_ ->].
   rewrite jeq_int_iff. split; intro H; [injection H as ->; reflexivity | subst; reflexivity].
+Qed.
+
+(* ------------------------------------------------------------------ `copy`: the value read at `path` afterwards is the value
+   that was at `from` (added after seeded change round3/C15: jbn_clone climbing one level where the source closes several) *)
+Lemma lookup_set_member_same : forall s x ms y, lookup s ms = Some y -> lookup s (set_member s x ms) = Some x.
+Proof.
+  intros s x ms. induction ms as [|[k v] r IH]; intros y H; simpl in *; [discriminate|].
+  destruct (bytes_eqb k s) eqn:E; simpl; rewrite E; [reflexivity | eapply IH; exact H].
+Qed.
+Lemma lookup_app_new : forall s x ms, lookup s ms = None -> lookup s (ms ++ [(s, x)]) = Some x.
+Proof.
+  intros s x ms. induction ms as [|[k v] r IH]; intro H; simpl in *.
+  - rewrite bytes_eqb_refl. reflexivity.
+  - destruct (bytes_eqb k s) eqn:E; [discriminate | apply IH; exact H].
+Qed.
+Lemma aidx_length : forall c l l' s, length l = length l' -> aidx c l s = aidx c l' s.
+Proof.
+  intros c l l' s H. unfold aidx. rewrite H. destruct l, l'; simpl in H; try discriminate; reflexivity.
+Qed.
+Lemma nth_error_mid : forall (A : Type) (l : list A) i x r, i = length l -> nth_error (l ++ x :: r) i = Some x.
+Proof. intros A l i x r ->. rewrite nth_error_app2 by lia. rewrite Nat.sub_diag. reflexivity. Qed.
+
+Lemma jget_add_here : forall x parent s v',
+  add_here strict x parent s = Some v' -> s_is_dash s = false -> jget strict v' [s] = Some x.
+Proof.
+  intros x parent s v' H D. destruct parent as [| | | | |l|ms]; simpl in H; try discriminate.
+  - rewrite D in H. cbn [strict c_ins] in H. destruct (strict_idx s) as [i|] eqn:I; [|discriminate].
+    destruct ((0 <=? i) && (i <=? Z.of_nat (length l))) eqn:B; [|discriminate]. injection H as <-.
+    apply andb_true_iff in B. destruct B as [B1 B2]. apply Z.leb_le in B1. apply Z.leb_le in B2.
+    cbn [jget]. unfold aidx. rewrite D. cbn [strict c_look]. rewrite I.
+    assert (L : length (firstn (Z.to_nat i) l) = Z.to_nat i) by (apply firstn_length_le; lia).
+    assert (B : (0 <=? i) && (i <? Z.of_nat (length (firstn (Z.to_nat i) l ++ x :: skipn (Z.to_nat i) l))) = true).
+    { apply andb_true_iff. split; [apply Z.leb_le; lia|]. apply Z.ltb_lt. rewrite app_length. simpl. rewrite L. lia. }
+    rewrite B. rewrite (nth_error_mid _ _ _ _ _ (eq_sym L)). reflexivity.
+  - injection H as <-. cbn [jget]. destruct (lookup s ms) as [y|] eqn:E.
+    + rewrite (lookup_set_member_same s x ms y E). reflexivity.
+    + pose proof (lookup_app_new s x ms E) as Q. unfold sseg in *. rewrite Q. reflexivity.
+Qed.
+
+Lemma jmod_cons2 : forall c v s s2 r2 f,
+  jmod c v (s :: s2 :: r2) f =
+  match v with
+  | JObj ms => match lookup s ms with
+               | Some x => match jmod c x (s2 :: r2) f with Some x' => Some (JObj (set_member s x' ms)) | None => None end
+               | None => None
+               end
+  | JArr l => match aidx c l s with
+              | Some i => match nth_error l i with
+                          | Some x => match jmod c x (s2 :: r2) f with
+                                      | Some x' => Some (JArr (firstn i l ++ x' :: skipn (S i) l))
+                                      | None => None
+                                      end
+                          | None => None
+                          end
+              | None => None
+              end
+  | _ => None
+  end.
+Proof. reflexivity. Qed.
+
+Lemma jget_cons : forall c v s r,
+  jget c v (s :: r) =
+  match v with
+  | JObj ms => match lookup s ms with Some x => jget c x r | None => None end
+  | JArr l => match aidx c l s with
+              | Some i => match nth_error l i with Some x => jget c x r | None => None end
+              | None => None
+              end
+  | _ => None
+  end.
+Proof. reflexivity. Qed.
+Lemma some_inj : forall (A : Type) (a b : A), Some a = Some b -> a = b.
+Proof. intros A a b H. congruence. Qed.
+
+Lemma jget_after_add : forall x p v v',
+  s_add strict v p x = Some v' -> s_is_dash (last p []) = false -> jget strict v' p = Some x.
+Proof.
+  intros x p. unfold s_add. induction p as [|s r IH]; intros v v' H D; [discriminate|].
+  destruct r as [|s2 r2].
+  - simpl in H. simpl in D. apply (jget_add_here x v s v' H D).
+  - assert (D' : s_is_dash (last (s2 :: r2) []) = false) by exact D.
+    rewrite jmod_cons2 in H. destruct v as [| | | | |l|ms]; try discriminate.
+    + destruct (aidx strict l s) as [i|] eqn:A; [|discriminate].
+      destruct (nth_error l i) as [y|] eqn:N; [|discriminate].
+      destruct (jmod strict y (s2 :: r2) (add_here strict x)) as [y'|] eqn:J; [|discriminate].
+      apply some_inj in H. subst v'.
+      assert (Li : (i < length l)%nat) by (apply nth_error_Some; rewrite N; discriminate).
+      assert (L : length (firstn i l) = i) by (apply firstn_length_le; lia).
+      assert (LL : length l = length (firstn i l ++ y' :: skipn (S i) l)).
+      { rewrite app_length. cbn [length]. rewrite L, skipn_length. lia. }
+      rewrite jget_cons. rewrite <- (aidx_length strict l _ s LL), A. rewrite (nth_error_mid _ _ _ _ _ (eq_sym L)).
+      apply (IH y y' J D').
+    + destruct (lookup s ms) as [y|] eqn:E; [|discriminate].
+      destruct (jmod strict y (s2 :: r2) (add_here strict x)) as [y'|] eqn:J; [|discriminate].
+      apply some_inj in H. subst v'.
+      rewrite jget_cons. rewrite (lookup_set_member_same s y' ms y E). apply (IH y y' J D').
+Qed.
+
+Lemma copy_value : forall fo t o f dv x d',
+  inv t -> op_good o -> no_root_alias (sop_of o) -> p_op o = OCopy -> p_from o = Some f ->
+  doc_val t = Some dv -> jget strict dv f = Some x ->
+  rfc_op strict (f_eq fo) (doc_val t) (sop_of o) = Some d' ->
+  s_is_dash (last (p_path o) []) = false ->
+  fst (apply_op fo t o) = RcOk /\ inv (snd (apply_op fo t o)) /\
+  exists v', doc_val (snd (apply_op fo t o)) = Some v' /\ jget strict v' (p_path o) = Some x.
+Proof.
+  intros fo t o f dv x d' It Go NR Ho Hf Hd Hx HR D.
+  assert (K : rfc_kind (p_op o)) by (rewrite Ho; right; right; right; left; reflexivity).
+  destruct (patch_single_op_rfc fo t o d' K It Go NR HR) as [R1 [R2 R3]].
+  split; [exact R1 | split; [exact R3|]]. rewrite R2.
+  unfold rfc_op, sop_of in HR. cbn [s_op s_path s_from s_val] in HR. rewrite Ho, Hf, Hd in HR. cbn [sopk_of] in HR.
+  destruct NR as [_ NR2]. assert (NE : p_path o <> []) by (apply NR2; right; unfold sop_of; cbn [s_op]; rewrite Ho; reflexivity).
+  assert (SR : s_is_root strict (p_path o) = false) by (destruct (p_path o) as [|[|c a] [|b2 b]]; [contradiction | reflexivity ..]).
+  rewrite SR, Hx in HR. destruct (s_add strict dv (p_path o) x) as [v'|] eqn:A; [|discriminate].
+  injection HR as <-. exists v'. split; [reflexivity | exact (jget_after_add x (p_path o) dv v' A D)].
 Qed.
